@@ -28,6 +28,8 @@ var Components = []string{
 	"accept", "err", "msgs",
 	"render", "js:es5", "js:es6",
 	"render+cat", "js:es5+cat", "js:es6+cat",
+	// what Generator.WriteFile(name) gives for every file name that is unique in the bundle
+	"js:writefile",
 	// "reuse" is empty unless re-rendering / re-generating on the SAME compiled registry
 	// gave another result than the first time (it then names the component and the difference)
 	"reuse",
@@ -362,6 +364,34 @@ func Observe(c *Case, order []int, cat *catalogue) Obs {
 	o["js:es6"] = gen(soyjs.ES6Formatter{}, false)
 	o["js:es5+cat"] = gen(soyjs.ES5Formatter{}, true)
 	o["js:es6+cat"] = gen(soyjs.ES6Formatter{}, true)
+
+	// Generator.WriteFile addresses a file by its NAME: for every name that only one file of the
+	// bundle carries it must give the script of exactly that file (= Write of that file)
+	{
+		count := map[string]int{}
+		for _, sf := range files {
+			count[sf.Name]++
+		}
+		g := soyjs.NewGenerator(reg)
+		var b strings.Builder
+		for _, sf := range files {
+			if count[sf.Name] != 1 {
+				continue
+			}
+			var buf bytes.Buffer
+			err := g.WriteFile(&buf, sf.Name)
+			text := buf.String()
+			if err != nil {
+				text += "\nERR: " + err.Error() // as genOne writes it
+			}
+			b.WriteString("//== WriteFile(" + strconv.Quote(sf.Name) + ")\n" + text + "\n")
+			if direct := genOne(sf, soyjs.ES5Formatter{}, false, cat); text != direct && o["writefile:bad"] == "" {
+				o["writefile:bad"] = "WriteFile(" + strconv.Quote(sf.Name) + ") is not the script of that file: " + diffHint(direct, text)
+				o["writefile:a"], o["writefile:b"] = direct, text
+			}
+		}
+		o["js:writefile"] = b.String()
+	}
 
 	// Second pass over the SAME registry, in another sequence (render after generation, ES6
 	// before ES5, a file generated twice in a row, files last to first, messages re-read):
